@@ -92,9 +92,10 @@ fn payload(rng: &mut ChaCha8Rng, utf8: bool, text: bool, n: usize) -> Vec<u8> {
     }
 }
 
-fn build(cfg: &Cfg, ring: &Ring, data: &[u8], seed: u64, tmp: &std::path::Path) -> Result<Vec<u8>, String> {
+fn build(cfg: &Cfg, ring: &Ring, data: &[u8], seed: u64, tmp: &std::path::Path) -> Result<(Vec<u8>, Option<Vec<u8>>), String> {
     let mut rng = ChaCha8Rng::seed_from_u64(seed);
     let mut out: Vec<u8> = Vec::new();
+    let mut session_key: Option<Vec<u8>> = None;
     macro_rules! common {
         ($b:expr) => {{
             let b = $b;
@@ -147,6 +148,7 @@ fn build(cfg: &Cfg, ring: &Ring, data: &[u8], seed: u64, tmp: &std::path::Path) 
                             b.encrypt_to_key(&mut rng, &pk).map_err(|e| e.to_string())?;
                         }
                     }
+                    session_key = Some(b.session_key().as_ref().to_vec());
                     write_out!(b);
                 }
                 Enc::V2(sym, aead, cs) => {
@@ -165,6 +167,7 @@ fn build(cfg: &Cfg, ring: &Ring, data: &[u8], seed: u64, tmp: &std::path::Path) 
                             b.encrypt_to_key(&mut rng, &pk).map_err(|e| e.to_string())?;
                         }
                     }
+                    session_key = Some(b.session_key().as_ref().to_vec());
                     write_out!(b);
                 }
             }
@@ -178,7 +181,7 @@ fn build(cfg: &Cfg, ring: &Ring, data: &[u8], seed: u64, tmp: &std::path::Path) 
             with_enc!(MessageBuilder::from_file(tmp))
         }
     }
-    Ok(out)
+    Ok((out, session_key))
 }
 
 struct ReadBack {
@@ -189,6 +192,7 @@ struct ReadBack {
 }
 
 fn read_back(cfg: &Cfg, ring: &Ring, msg: &[u8], how: usize) -> Result<ReadBack, String> {
+    // `how` selects ONE of the intended ways in (passwords first, then keys)
     let m = if cfg.armor {
         Message::from_armor(msg).map_err(|e| format!("from_armor: {e}"))?.0
     } else {
@@ -291,7 +295,262 @@ fn random_cfg(rng: &mut ChaCha8Rng, ring: &Ring, thorough: bool, i: usize) -> Cf
     }
 }
 
+const ALL_V1_CIPHERS: [SymmetricKeyAlgorithm; 11] = [
+    SymmetricKeyAlgorithm::AES128, SymmetricKeyAlgorithm::AES192, SymmetricKeyAlgorithm::AES256,
+    SymmetricKeyAlgorithm::TripleDES, SymmetricKeyAlgorithm::CAST5, SymmetricKeyAlgorithm::Blowfish,
+    SymmetricKeyAlgorithm::Twofish, SymmetricKeyAlgorithm::Camellia128, SymmetricKeyAlgorithm::Camellia192,
+    SymmetricKeyAlgorithm::Camellia256, SymmetricKeyAlgorithm::IDEA,
+];
+
+/// boundary set of payload lengths for a configuration: 0, 1, around the first literal chunk (the
+/// 6-octet literal header is counted in it), around 2^k and 2·2^k, AEAD chunk multiples, and the
+/// 8 KiB internal buffers
+fn boundary_lengths(chunk_log2: u32, aead_cs: usize) -> Vec<usize> {
+    let c = 1usize << chunk_log2;
+    let mut v = vec![0usize, 1, 2, c - 7, c - 6, c - 5, c - 1, c, c + 1, 2 * c - 7, 2 * c - 6, 2 * c - 5, 2 * c - 1, 2 * c, 2 * c + 1,
+        aead_cs - 1, aead_cs, aead_cs + 1, 2 * aead_cs, 3 * aead_cs + 1, 511, 512, 513, 1023, 1024, 1025, 8170, 8191, 8192, 8193];
+    v.sort();
+    v.dedup();
+    v
+}
+
+/// deterministic covering sweep for the end-to-end walk: SEIPDv1 × every cipher, SEIPDv2 ×
+/// {EAX, OCB, GCM} × chunk octets 0..4, 0..2 passwords + 0..2 keys (one anonymous), armor on/off,
+/// compression none/zip/zlib/bzip2, 0..3 signers, known/unknown length; the other dimensions rotate
+fn e2e_sweep(ring: &Ring, thorough: bool) -> Vec<(Cfg, usize, usize)> {
+    let mut out = Vec::new();
+    let comps = [None, Some(CompressionAlgorithm::ZIP), Some(CompressionAlgorithm::ZLIB), Some(CompressionAlgorithm::BZip2)];
+    let aeads = [AeadAlgorithm::Eax, AeadAlgorithm::Ocb, AeadAlgorithm::Gcm];
+    let aes = [SymmetricKeyAlgorithm::AES128, SymmetricKeyAlgorithm::AES192, SymmetricKeyAlgorithm::AES256];
+    let mut encs: Vec<Enc> = vec![Enc::None, Enc::None, Enc::None, Enc::None];
+    for c in ALL_V1_CIPHERS {
+        encs.push(Enc::V1(c));
+    }
+    for (ai, a) in aeads.iter().enumerate() {
+        for cs in 0u8..=4 {
+            encs.push(Enc::V2(aes[(ai + cs as usize) % 3], *a, cs));
+        }
+    }
+    let rounds = if thorough { 16 } else { 4 };
+    let mut j = 0usize;
+    for round in 0..rounds {
+        for enc in &encs {
+            j += 1;
+            let n_signers = (j + round) % 4;
+            let signers: Vec<(usize, HashAlgorithm)> = (0..n_signers)
+                .map(|t| {
+                    let ki = (j + 2 * t + round) % ring.keys.len();
+                    (ki, if ki == 5 { HashAlgorithm::Sha512 } else { [HashAlgorithm::Sha256, HashAlgorithm::Sha512][(j + t) % 2] })
+                })
+                .collect();
+            let (mut passwords, mut recipients) = (Vec::new(), Vec::new());
+            if !matches!(enc, Enc::None) {
+                // (passwords, keys) over {0,1,2}², never (0,0)
+                let combos = [(1usize, 0usize), (0, 1), (1, 1), (2, 0), (0, 2), (2, 1), (1, 2), (2, 2)];
+                let (np, nk) = combos[(j + round) % combos.len()];
+                // two SKESK v4 under SEIPDv1 is the D18b shape: keep it to the dedicated corpus entry
+                let np = if matches!(enc, Enc::V1(_)) { np.min(1) } else { np };
+                let nk = if np == 0 && nk == 0 { 1 } else { nk };
+                for t in 0..np {
+                    let pw = match (j + t) % 3 { 0 => vec![], 1 => vec![0xff, 0xfe, 0x00, b'x'], _ => format!("pw-{j}-{t}").into_bytes() };
+                    let kind = if matches!(enc, Enc::V2(..)) { ((j + t) % 4) as u8 } else { ((j + t) % 3) as u8 };
+                    passwords.push((pw, kind));
+                }
+                for t in 0..nk {
+                    recipients.push(((j + 3 * t + round) % ring.keys.len(), t == 1));
+                }
+            }
+            let chunk_log2 = 9 + ((j + round) % 3) as u32;
+            let aead_cs = match enc { Enc::V2(_, _, o) => 1usize << (*o as usize + 6), _ => 64 };
+            let lens = boundary_lengths(chunk_log2, aead_cs);
+            let n = lens[(j * 7 + round * 3) % lens.len()];
+            let cfg = Cfg {
+                source: [Source::Bytes, Source::Reader, Source::File, Source::Reader][(j + round) % 4],
+                utf8: (j + round) % 5 == 0,
+                chunk_log2,
+                compression: comps[(j / 2 + round) % 4],
+                signers,
+                sign_text: (j + round) % 3 == 0,
+                enc: enc.clone(),
+                passwords,
+                recipients,
+                armor: (j + round) % 2 == 0,
+                checksum: (j / 2 + round) % 2 == 0,
+            };
+            out.push((cfg, n, 40_000 + out.len()));
+        }
+    }
+    out
+}
+
+/// one pending model-writer -> real-reader job
+struct Rev {
+    inp: String,
+    cfg: Cfg,
+    payload: Vec<u8>,
+    seed: usize,
+    pkts: Vec<(u8, Vec<u8>)>,   // signed-level packets of the real message
+    esk_raw: Vec<u8>,            // the real ESK packets, re-serialised
+    container: Option<(SymmetricKeyAlgorithm, AeadAlgorithm, u8, [u8; 32], Vec<u8>)>, // + session key
+    lit_req: String,
+    lit_body: Vec<u8>,
+}
+
+fn run_reverse(ctx: &mut Ctx, ring: &Ring, revs: Vec<Rev>) {
+    use crate::props::c01_e2e as e2e;
+    let mut model = crate::plan::Model::locate(ctx.out_dir());
+    if !model.available() {
+        ctx.note("model driver not found: model-writer -> real-reader cases are skipped");
+        return;
+    }
+    let site = "model framing (E2E / Framing.lean) -> Message reader";
+    let mut rng = ChaCha8Rng::seed_from_u64(ctx.seed ^ 0xE2E);
+    // batch 1: the literal packet in a model-chosen legal framing
+    let reqs: Vec<String> = revs.iter().map(|r| r.lit_req.clone()).collect();
+    let answers = model.ask(&reqs);
+    let mut stage2: Vec<(Rev, Vec<u8>, String, String)> = Vec::new(); // rev, inner stream, container request, wrap kind
+    for (r, ans) in revs.into_iter().zip(answers) {
+        let Some(framed) = ans.strip_prefix("ok:").and_then(|h| if h == "-" { Some(vec![]) } else { hex::decode(h).ok() }) else {
+            ctx.case(r.lit_req.clone(), "impl:model-gave-no-framing".into());
+            continue;
+        };
+        // the real packet reader must see exactly (tag 11, body)
+        let (d, parts) = crate::props::c17::real_deframe(&framed);
+        let good = matches!(&parts, Some((b, rest)) if *b == r.lit_body && rest.is_empty()) && d.split(':').nth(2) == Some("11");
+        ctx.case(r.lit_req.clone(), if good { ans.clone() } else { format!("impl:deframe={d}") });
+        ctx.stat("reverse:literal_framing");
+        // reassemble the signed level
+        let mut inner = Vec::new();
+        for (t, b) in r.pkts.iter().filter(|(t, _)| *t == 4) {
+            inner.extend(crate::sigrec::packet5(*t, b));
+        }
+        inner.extend_from_slice(&framed);
+        for (t, b) in r.pkts.iter().filter(|(t, _)| *t == 2) {
+            inner.extend(crate::sigrec::packet5(*t, b));
+        }
+        // optionally wrap in a compressed data packet (algorithm 0, or deflate through flate2)
+        let wrap = rng.gen_range(0..3);
+        let (wrapped, wrap_kind) = match wrap {
+            0 => (inner.clone(), "none"),
+            1 => {
+                let mut b = vec![0u8];
+                b.extend_from_slice(&inner);
+                (crate::sigrec::packet5(8, &b), "uncompressed")
+            }
+            _ => {
+                use std::io::Write;
+                let mut enc = flate2::write::DeflateEncoder::new(Vec::new(), flate2::Compression::fast());
+                let _ = enc.write_all(&inner);
+                let mut b = vec![1u8];
+                b.extend(enc.finish().unwrap_or_default());
+                (crate::sigrec::packet5(8, &b), "zip")
+            }
+        };
+        let req2 = match &r.container {
+            None => String::new(),
+            Some((sym, aead, cs, salt, sk)) => {
+                let Some(ct) = e2e::v2_encrypt(*sym, *aead, *cs, salt, sk, &wrapped) else { continue };
+                let mut body = vec![2u8, u8::from(*sym), u8::from(*aead), *cs];
+                body.extend_from_slice(salt);
+                body.extend(ct);
+                match e2e::random_segs(&mut rng, body.len()) {
+                    Some(segs) if rng.gen_bool(0.8) => e2e::frame_request(18, "partial", &format!("segs={}", segs.iter().map(|k| k.to_string()).collect::<Vec<_>>().join(",")), &body),
+                    _ => e2e::frame_request(18, "fixed", "fmt=1 form=5", &body),
+                }
+            }
+        };
+        stage2.push((r, wrapped, req2, wrap_kind.to_string()));
+    }
+    // batch 2: the SEIPDv2 container in a model-chosen legal framing
+    let reqs2: Vec<String> = stage2.iter().filter(|x| !x.2.is_empty()).map(|x| x.2.clone()).collect();
+    let mut answers2 = model.ask(&reqs2).into_iter();
+    for (r, wrapped, req2, wrap_kind) in stage2 {
+        let msg = if req2.is_empty() {
+            wrapped
+        } else {
+            let ans = answers2.next().unwrap_or_default();
+            let Some(framed) = ans.strip_prefix("ok:").and_then(|h| hex::decode(h).ok()) else {
+                ctx.case(req2, "impl:model-gave-no-framing".into());
+                continue;
+            };
+            let (d, parts) = crate::props::c17::real_deframe(&framed);
+            let good = matches!(&parts, Some((_, rest)) if rest.is_empty()) && d.split(':').nth(2) == Some("18");
+            ctx.case(req2, if good { ans.clone() } else { format!("impl:deframe={d}") });
+            ctx.stat("reverse:container_framing");
+            let mut m = r.esk_raw.clone();
+            m.extend(framed);
+            m
+        };
+        ctx.stat(&format!("reverse:wrap:{wrap_kind}"));
+        let mut cfg = r.cfg.clone();
+        cfg.armor = false;
+        let inp = format!("{} reverse msg={}", r.inp, hx(&msg));
+        match guarded(|| read_back(&cfg, ring, &msg, r.seed)) {
+            Ok(Ok(rb)) => {
+                let ok = rb.data == r.payload && rb.mode_utf8 == cfg.utf8 && rb.file_name.is_empty()
+                    && rb.verified.len() == cfg.signers.len() && rb.verified.iter().all(|v| *v);
+                ctx.oracle("reader_accepts_model_framing", site, &inp, ok, &format!("{} bytes (want {}), verified {:?}", rb.data.len(), r.payload.len(), rb.verified));
+            }
+            Ok(Err(e)) => ctx.oracle("reader_accepts_model_framing", site, &inp, false, &e),
+            Err(p) => ctx.oracle("reader_does_not_panic", site, &inp, false, &p),
+        }
+    }
+}
+
+/// executed non-vacuity of the end-to-end theorems: `readFull ∘ buildFull` on the toy primitives of
+/// lean/RpgpModel/E2EToy.lean for boundary lengths (the expected answer is what the theorems state)
+fn toy_cases(ctx: &mut Ctx) {
+    let lens: Vec<usize> = if ctx.thorough() { (0..=1100).chain([8191, 8192, 8193, 16384]).collect() } else { vec![0, 1, 505, 506, 507, 511, 512, 513, 600, 1017, 1018, 1019, 1024, 8192] };
+    for n in lens {
+        for (cfg, secret, want) in [("A", "pw", "ok"), ("A", "key", "ok"), ("B", "pw", "ok"), ("B", "key", "ok"), ("Ap", "none", "ok"), ("Al", "none", "ok"), ("A", "bad", "fail")] {
+            if !ctx.thorough() && n > 1100 && cfg != "A" {
+                continue;
+            }
+            ctx.case(format!("e2e_toy cfg={cfg} secret={secret} n={n} cut={}", n % 97), want.to_string());
+        }
+    }
+    // D18b at message level on the toy primitives: two SKESK v4, either password alone is rejected
+    ctx.case("e2e_toy cfg=D secret=pw n=10".into(), "fail".into());
+    ctx.case("e2e_toy cfg=D secret=pq n=10".into(), "fail".into());
+}
+
+/// `Utf8` literals: what the builder refuses (any read schedule of the source) and what the reader
+/// returns (it does not check) — model `E2E.srcOk` / `E2E.readSigned`
+fn utf8_cases(ctx: &mut Ctx) {
+    use crate::props::c01_e2e as e2e;
+    let alphabet = [0x61u8, 0x0D, 0x0A, 0xC3, 0xA9, 0xFF];
+    let max_len = ctx.pick(3, 5);
+    for n in 0..=max_len {
+        for text in gen::all_strings(&alphabet, n) {
+            for chunks in gen::all_chunkings(&text) {
+                let r = guarded(|| {
+                    let mut rng = ChaCha8Rng::seed_from_u64(1);
+                    let mut b = MessageBuilder::from_reader("", ScheduledReader::from_chunks(&chunks));
+                    if b.data_mode(DataMode::Utf8).is_err() {
+                        return false;
+                    }
+                    b.to_vec(&mut rng).is_ok()
+                });
+                let accepted = matches!(r, Ok(true));
+                ctx.case(format!("e2e_srcok mode=117 chunks={}", crate::ctx::hx_list(&chunks)), format!("ok:{}", accepted as u8));
+                // property text: whatever the builder emits comes back — checked for the accepted ones below
+                if n == max_len && !ctx.thorough() {
+                    break; // one chunking of the longest texts in the quick tier
+                }
+            }
+            // reader side: a `u` literal with this body, written by hand, is returned as it is
+            let mut body = vec![b'u', 0, 0, 0, 0, 0];
+            body.extend_from_slice(&text);
+            let stream = crate::sigrec::packet5(11, &body);
+            if let Some(v) = e2e::signed_level(ctx, &stream) {
+                ctx.oracle("reader_returns_literal_body", "hand-written `u` literal -> Message reader", &format!("stream={}", hx(&stream)), v.payload == text, "body differs");
+            }
+        }
+    }
+}
+
 pub fn run(ctx: &mut Ctx) {
+    use crate::props::c01_e2e as e2e;
     let mut krng = ChaCha8Rng::seed_from_u64(4242);
     let ring = Ring {
         keys: vec![
@@ -335,18 +594,21 @@ pub fn run(ctx: &mut Ctx) {
         }
     }
     // many RSA-signed messages: signature values with leading zero octets occur 1 in 256 times
-    let n_rsa = ctx.pick(700, 8000);
+    let n_rsa = ctx.pick(500, 4000);
     for j in 0..n_rsa {
         sweep.push((Cfg { source: Source::Bytes, utf8: false, chunk_log2: 9, compression: None, signers: vec![(4, HashAlgorithm::Sha256)], sign_text: j % 2 == 0,
             enc: Enc::None, passwords: vec![], recipients: vec![], armor: false, checksum: false }, 3 + j % 7, 20_000 + j));
     }
     let mut corpus = corpus;
     corpus.extend(sweep);
+    corpus.extend(e2e_sweep(&ring, ctx.thorough()));
     let n_corpus = corpus.len();
+    let mut revs: Vec<Rev> = Vec::new();
+    let mut n_walks = 0usize;
     for i in 0..(n_corpus + n_cfg) {
         let (cfg, forced_n, i) = if i < n_corpus {
             let (c, n, s) = corpus[i].clone();
-            ctx.stat(if s >= 9000 { "sweep" } else { "corpus" });
+            ctx.stat(if s >= 40_000 { "e2e_sweep" } else if s >= 9000 { "sweep" } else { "corpus" });
             (c, Some(n), s)
         } else {
             (random_cfg(&mut rng, &ring, ctx.thorough(), i - n_corpus), None, i - n_corpus)
@@ -354,13 +616,14 @@ pub fn run(ctx: &mut Ctx) {
         let c = 1usize << cfg.chunk_log2;
         let aead_cs = match &cfg.enc { Enc::V2(_, _, o) => 1usize << (*o as usize + 6), _ => 64 };
         // boundary-oriented payload sizes: partial-body, AEAD-chunk and internal-buffer edges
-        let cands = [0usize, 1, 2, c - 7, c - 6, c - 5, c - 1, c, c + 1, 2 * c - 6, 2 * c, 2 * c + 1, aead_cs - 1, aead_cs, aead_cs + 1,
-            2 * aead_cs, 3 * aead_cs + 1, 8170, 8191, 8192, 8193, 511, 512, 513, 1023, 1024, 16384];
+        let mut cands = boundary_lengths(cfg.chunk_log2, aead_cs);
+        cands.push(16384);
+        let _ = c;
         let mut n = cands[rng.gen_range(0..cands.len())];
         if n > 70_000 {
             n = rng.gen_range(0..70_000);
         }
-        if c >= 1 << 14 && !ctx.thorough() {
+        if cfg.chunk_log2 >= 14 && !ctx.thorough() {
             n = n.min(3000);
         }
         if let Some(f) = forced_n {
@@ -370,7 +633,7 @@ pub fn run(ctx: &mut Ctx) {
         let inp = format!("cfg={cfg:?} n={n} seed={i}");
         let site = "MessageBuilder -> Message reader";
         let built = guarded(|| build(&cfg, &ring, &data, i as u64, &tmp));
-        let msg = match built {
+        let (msg, session_key) = match built {
             Ok(Ok(m)) => m,
             Ok(Err(e)) => {
                 // configurations the library documents as unsupported are not failures of the property
@@ -388,10 +651,12 @@ pub fn run(ctx: &mut Ctx) {
                 continue;
             }
         };
-        ctx.stat(&format!("enc:{}", match &cfg.enc { Enc::None => "none", Enc::V1(_) => "v1", Enc::V2(..) => "v2" }));
+        ctx.stat(&format!("enc:{}", match &cfg.enc { Enc::None => "none".to_string(), Enc::V1(s) => format!("v1:{s:?}"), Enc::V2(_, a, o) => format!("v2:{a:?}:cs{o}") }));
         ctx.stat(&format!("signers:{}", cfg.signers.len()));
         ctx.stat(&format!("compression:{:?}", cfg.compression));
         ctx.stat(&format!("source:{:?}", cfg.source));
+        ctx.stat(&format!("recipients:pw{}:key{}", cfg.passwords.len(), cfg.recipients.len()));
+        ctx.stat(&format!("len:{}", if n == 0 { "0".to_string() } else if n < 512 { "<512".into() } else if n <= 8193 { "512..8193".into() } else { ">8193".into() }));
         if cfg.armor { ctx.stat("armor"); }
         let rb = guarded(|| read_back(&cfg, &ring, &msg, i));
         match rb {
@@ -402,6 +667,22 @@ pub fn run(ctx: &mut Ctx) {
             }
             Ok(Err(e)) => ctx.oracle("reader_accepts_own_output", site, &inp, false, &e),
             Err(p) => ctx.oracle("reader_does_not_panic", site, &inp, false, &p),
+        }
+        // "every intended recipient alone": each password and each key of the message, one at a time
+        // (the sweep entries and a share of the random configurations; every way in, not only one)
+        let n_ways = cfg.passwords.len() + cfg.recipients.len();
+        if n_ways > 1 && (i >= 40_000 || i % 3 == 0 || ctx.thorough()) {
+            for w in 0..n_ways {
+                if w == i % n_ways {
+                    continue; // evaluated above
+                }
+                let inp_w = format!("{inp} way={w}");
+                match guarded(|| read_back(&cfg, &ring, &msg, w)) {
+                    Ok(Ok(r)) => ctx.oracle("each_recipient_alone_decrypts", site, &inp_w, r.data == data && r.verified.iter().all(|v| *v), &format!("got {} bytes, want {}", r.data.len(), data.len())),
+                    Ok(Err(e)) => ctx.oracle("each_recipient_alone_decrypts", site, &inp_w, false, &e),
+                    Err(p) => ctx.oracle("reader_does_not_panic", site, &inp_w, false, &p),
+                }
+            }
         }
         // ---- layer correspondence for plain (unencrypted, unarmored) small messages:
         // the model's packet splitter must see exactly the packets the real parser sees
@@ -425,6 +706,48 @@ pub fn run(ctx: &mut Ctx) {
             }
             ctx.case(format!("packets data={}", hx(&msg)), format!("ok:{}", parts.join(",")));
         }
+        // ---- end-to-end structure walk (E2E.readFull) on the real builder's output
+        let walk_it = msg.len() <= ctx.pick(14_000, 60_000)
+            && (i >= 40_000 || (i < 9000 && i != 357) || (i < 20_000 && i % 4 == 0) || (i >= 20_000 && i < 40_000 && i % 50 == 0));
+        if walk_it {
+            n_walks += 1;
+            let sym_v1 = match &cfg.enc { Enc::V1(s) => Some(*s), _ => None };
+            if let Some((inner, top)) = e2e::walk(ctx, cfg.armor, &msg, session_key.as_deref(), sym_v1, &data, &inp) {
+                // reverse direction: unencrypted and SEIPDv2 messages
+                let want_rev = matches!(cfg.enc, Enc::None | Enc::V2(..)) && revs.len() < ctx.pick(120, 1500);
+                if want_rev {
+                    if let Some(pkts) = e2e::real_packets(inner.clone()) {
+                        if let Some((_, lit_body)) = pkts.iter().find(|(t, _)| *t == 11).cloned() {
+                            let n_sigs = pkts.iter().filter(|(t, _)| *t == 2).count();
+                            let l = lit_body.len();
+                            let choice = rng.gen_range(0..6);
+                            let (kind, extra) = match (choice, e2e::random_segs(&mut rng, l)) {
+                                (0..=2, Some(segs)) => ("partial", format!("segs={}", segs.iter().map(|k| k.to_string()).collect::<Vec<_>>().join(","))),
+                                (3, _) if l < 65536 => ("fixed", format!("fmt=0 form={}", if l < 256 && rng.gen_bool(0.5) { 0 } else { 1 })),
+                                (4, _) if n_sigs == 0 => ("indet", String::new()),
+                                (_, _) => ("fixed", format!("fmt=1 form={}", if l < 192 && rng.gen_bool(0.3) { 1 } else if (192..8384).contains(&l) && rng.gen_bool(0.3) { 2 } else { 5 })),
+                            };
+                            let container = match (&cfg.enc, &top.container, &session_key) {
+                                (Enc::V2(..), Some((e2e::Container::V2 { sym, aead, cs, salt }, _)), Some(sk)) => Some((*sym, *aead, *cs, *salt, sk.clone())),
+                                _ => None,
+                            };
+                            let mut esk_raw = Vec::new();
+                            for (t, b) in top.packets.iter().filter(|(t, _)| *t == 1 || *t == 3) {
+                                esk_raw.extend(crate::sigrec::packet5(*t, b));
+                            }
+                            if matches!(cfg.enc, Enc::None) || container.is_some() {
+                                revs.push(Rev { inp: inp.clone(), cfg: cfg.clone(), payload: data.clone(), seed: i, pkts,
+                                    esk_raw, container, lit_req: e2e::frame_request(11, kind, &extra, &lit_body), lit_body });
+                            }
+                        }
+                    }
+                }
+            }
+        }
     }
+    ctx.stat_n("e2e_walks", n_walks as u64);
+    run_reverse(ctx, &ring, revs);
+    toy_cases(ctx);
+    utf8_cases(ctx);
     let _ = std::fs::remove_file(&tmp);
 }
